@@ -1,7 +1,57 @@
 """C08 — PyPI solution consistency (unit lemmas of the resolver state)."""
+import random
 from vlib.runner import Group, run_property
 
 SUM = ["(deps.dev/util/resolve.PackageKey).Compare"]
+
+
+SPECS2 = ["", "==D.0", ">=D.0", "<D.0", "!=D.0", "~=D.0", ">=D.0,<E.0", "<=D.0", ">=D.0rc1", ">D.0", "==D.*", "<=D.0rc1"]  # = harness c08r2Specs
+
+
+def skeleton2(rnd, cyc=0.3, symbolic=5):
+    """Second-generation PyPI skeleton: two slots per version, requirements on the root package, extras."""
+    p = {"rv2": rnd.choice([0, 1, 1])}
+
+    def slot(tag, t, allow_extra=True):
+        p[tag + "t"] = t
+        p[tag + "r"] = rnd.choice([0, 0, 1, 2, 2, 3, 4, 5, 6, 7, 8, 8, 9, 10, 11])
+        p[tag + "m"] = rnd.choice([0, 0, 0, 0, 1, 2, 3, 4, 5])
+        p[tag + "e"] = rnd.choice([0, 0, 0, 1, 2, 3]) if (allow_extra and t not in (0, 4)) else 0
+    targets = [1, 2, 3]
+    rnd.shuffle(targets)
+    for s in range(3):
+        slot("r%d" % s, targets[s] if (s == 0 or rnd.random() < 0.7) else 0)
+        if p["r%dm" % s] >= 3:
+            p["r%dm" % s] = 0  # nobody requests extras of the root
+    slot("q0", rnd.choice([0, 1, 2, 3]))
+    for pi in range(3):
+        nv = rnd.choice([1, 2, 2, 3])
+        p["nv%d" % pi] = nv
+        used = set()
+        for vi in range(3):
+            tag = "%d%d" % (pi, vi)
+            while True:
+                key = (rnd.choice([1, 2, 3]), rnd.choice([0, 0, 0, 1]))
+                if key not in used:
+                    used.add(key)
+                    break
+            p["mj" + tag], p["pr" + tag] = key
+            others = [t for t in (1, 2, 3) if t != pi + 1]
+            cands = [0] + others + others + ([4, 4, 4] if rnd.random() < cyc else [])
+            t0 = rnd.choice(cands)
+            slot("p%ss0" % tag, t0)
+            t1 = rnd.choice([0, 0] + [t for t in others + [4] if t != t0])
+            slot("p%ss1" % tag, t1)
+    left = symbolic
+    tags = ["r0", "r1", "r2", "q0"] + ["p%d%ds%d" % (pi, vi, s) for vi in range(3) for pi in range(3) for s in range(2)]
+    for tag in tags:
+        nd = (SPECS2[p[tag + "r"]].count("D") + (1 if p[tag + "m"] in (1, 2) else 0)) if p[tag + "t"] else 0
+        if nd and left >= 1:
+            p[tag + "c"] = 0
+            left -= 1
+        else:
+            p[tag + "c"] = rnd.choice([1, 2, 3])
+    return p
 
 
 def run(tier):
@@ -38,8 +88,15 @@ def run(tier):
                 p["p%d%dr" % (pi, vi)] = rnd.randrange(8)
                 p["p%d%dm" % (pi, vi)] = rnd.choice([0, 0, 0, 1, 2])
         jobs.append(dict(rbase, harness="VerifC08Resolve", params=p))
-    return run_property("C08", tier, [Group("rpypi", jobs)],
-                        required_covers=["puts done", "sets done", "non-empty intersection", "empty intersection", "something filtered", "resolved", "a graph with several nodes", "true marker checked", "false marker checked"],
+    rnd2 = random.Random(20261006)
+    n2 = 1500 if q else 12000
+    for i in range(n2):
+        jobs.append(dict(rbase, harness="VerifC08Resolve2", params=skeleton2(rnd2, cyc=0.5 if i % 2 else 0.15)))
+    lemmas = [j for j in jobs if not j["harness"].startswith("VerifC08Resolve")]
+    whole = [j for j in jobs if j["harness"].startswith("VerifC08Resolve")]
+    return run_property("C08", tier, [Group("rpypi", lemmas, files=["c05.go", "c08.go", "c08r.go"]),
+                                      Group("rpypi", whole, files=["c05.go", "c05shared.go", "c08r.go", "c08r2.go"])],
+                        required_covers=["puts done", "sets done", "non-empty intersection", "empty intersection", "something filtered", "resolved", "a graph with several nodes", "true marker checked", "false marker checked", "an edge back to the root", "a requirement guarded by a requested extra"],
                         assumptions=["unit lemmas: criteria, versionMap, intersect, filterSlice, copy independence",
-                                     "whole resolver: universe skeletons (3 packages + root, <=3 versions, one requirement slot per version, three for the root, markers over python_version/os_name/extra) are a fixed pseudo-random sample; version numbers, specifier numbers and marker thresholds are symbolic digits in 1..4; requested extras are not generated"],
+                                     "whole resolver: universe skeletons are a fixed pseudo-random sample. First generation: 3 packages + root, <=3 versions, one requirement slot per version, three for the root, markers over python_version/os_name/extra, version numbers, specifier numbers and marker thresholds symbolic digits in 1..4. Second generation: two slots per version, requirements on the root package (cycles; the root package has a second version), requested extras and extra-guarded requirements (extra on either side of ==), specifiers mentioning prereleases; version strings concrete, the digits of the first five requirements symbolic in 1..3"],
                         bounds={"entries": 3 if q else 4})
